@@ -18,7 +18,7 @@ import warnings
 import xml.etree.ElementTree as ET
 from typing import Any, Dict, List, Optional
 
-from harness.common import VirtualTimeLoop, tok_str
+from harness.common import MicrosecondLoop, tok_str
 from vk.core import Case, Ctx
 
 GEN_MODULES: List[str] = ["C15"]
@@ -31,7 +31,9 @@ MANIFEST = {
              "granted timeout, initial event with key 0, per-SID keys +1 with 2^32-1 -> 1, bodies carry every evented "
              "variable's current value, no NOTIFY to unsubscribed / expired SIDs, one NOTIFY per trigger, triggers of a "
              "variable at least its interval apart, every live subscriber up to date whenever the server is idle, "
-             "renewal moves the expiry, unknown SIDs refused). The model is tied to server.py by a per-operation "
+             "renewal moves the expiry, unknown SIDs refused); values are integers, booleans and strings with their wire text, "
+             "deliveries may fail, several services of one device are independent (c15_device, service_frame); "
+             "accepted_moderation and accepted_unsubscribed_silent state what acceptance implies for ANY trace. The model is tied to server.py by a per-operation "
              "differential check of all observations on a virtual-time loop, the key arithmetic and default timeout are "
              "regenerated from the source (Gen.C15), and the same monitor judges the implementation's traces."),
     "note": ("Trusted: Lean kernel + standard axioms; asyncio scheduling (FIFO ready queue, run-to-quiescence per "
@@ -43,29 +45,26 @@ MANIFEST = {
 RULE = ("histories of <= 25 (thorough <= 40) operations over {SUBSCRIBE new (good / malformed CALLBACK and TIMEOUT), renewal and "
         "UNSUBSCRIBE of known / unknown / empty / ended SIDs, set variable (same / new value), bursts of 2..6 assignments without "
         "yielding to the loop, advance virtual time (10 ms .. 2 h), "
-        "complete an outstanding NOTIFY (any order), preset event key near 2^32-1} on a service with 1..4 variables "
-        "(moderation 0 / 0.2 s / 2 s, with / without default, one optionally not evented) and up to 4 subscribers; plus "
+        "complete or fail an outstanding NOTIFY (any order), preset event key near 2^32-1} on one or two services of one device, each "
+        "with 1..4 variables of type i4 / boolean / string (moderation 0 / 0.2 s / 2 s, with / without default, one optionally "
+        "not evented) and up to 4 subscribers; the NOTIFY body is parsed with xml.etree and compared per variable text; plus "
         "structured scenarios (bursts inside a moderation interval, change during an initial delivery, expiry, timer ties) "
         "with every completion order of <= 3 outstanding deliveries. non-trivial = at least one event after an initial "
         "event or one deferred trigger; distinct = distinct canonical driver text")
 EXHAUSTIVE = {"quick": False, "thorough": False}
 ASSUMPTIONS = [
-    "variables hold Python ints of UPnP type i4 (value validation and other data types are C08/C14's subject)",
+    "variables are of UPnP type i4, boolean or string and are assigned values of their own type (validation is C08/C14's subject); "
+    "string values consist of characters XML 1.0 can carry",
     "header text is ASCII; TIMEOUT values have at most 9 digits (beyond that timedelta overflows: outside the alphabet)",
     "each operation is followed by running the loop until idle (a burst operation makes its assignments without yielding in between)",
-    "NOTIFY deliveries complete successfully (a failing delivery only raises out of the fire-and-forget task)",
+    "a NOTIFY delivery completes, fails (UpnpConnectionError / TimeoutError) or stays outstanding; failed deliveries are not retried by the code",
 ]
 TRUSTED = ["C15: asyncio run-to-quiescence semantics and the µs-snapped virtual-time loop; aiohttp Response.prepare on a mocked request"]
 
 BASE_US = 1704067200_000000  # 2024-01-01T00:00:00Z
 
 
-class C15Loop(VirtualTimeLoop):
-    """virtual-time loop whose timer deadlines are snapped to whole microseconds, so that two timers
-    computed by different float routes for the same instant coincide (and are popped together)."""
-
-    def call_at(self, when, callback, *args, context=None):  # type: ignore[override]
-        return super().call_at(round(when * 1e6) / 1e6, callback, *args, context=context)
+C15Loop = MicrosecondLoop  # µs-snapped virtual-time loop (harness/common.py)
 
 
 def _make_vdt(loop):
@@ -118,58 +117,98 @@ async def _settle(loop) -> None:
 
 
 def _body_token(body: str, names: List[str]) -> str:
+    """the property set as a real XML parser reads it: (variable index, element text), sorted by index"""
     root = ET.fromstring(body)
     out = []
+    ok = root.tag == "{urn:schemas-upnp-org:event-1-0}propertyset"
     for prop in root:
+        ok = ok and prop.tag == "{urn:schemas-upnp-org:event-1-0}property" and len(prop) == 1
         for el in prop:
             idx = names.index(el.tag) if el.tag in names else 99
-            txt = el.text or ""
-            out.append((idx, "N" if txt == "None" else txt))
+            out.append((idx, el.text or ""))
     out.sort()
-    return ",".join(f"{i}={v}" for i, v in out) if out else "~"
+    if not ok:
+        return "malformed-propertyset"
+    return ",".join(f"{i}={tok_str(v)}" for i, v in out) if out else "~"
+
+
+def val_tok(v) -> str:
+    if v is None:
+        return "N"
+    if isinstance(v, bool):
+        return "b1" if v else "b0"
+    if isinstance(v, int):
+        return f"i{v}"
+    return "s" + tok_str(v)
+
+
+def norm_services(recipe: Dict[str, Any]) -> List[List[List[Any]]]:
+    """recipe["services"] = [[ [evented, rate µs, default, type], ... ], ...]; legacy recipe["vars"] = one service of i4"""
+    svcs = recipe.get("services")
+    if svcs is None:
+        svcs = [recipe["vars"]]
+    return [[(list(v) + ["i4"])[:4] for v in vs] for vs in svcs]
 
 
 def run_recipe(ctx: Ctx, recipe: Dict[str, Any], cid: str) -> Case:
     import async_upnp_client.client as cli
     import async_upnp_client.server as srv
     from aiohttp.test_utils import make_mocked_request
-    from async_upnp_client.const import ServiceInfo
+    from async_upnp_client.const import DeviceInfo, ServiceInfo
+    from async_upnp_client.exceptions import UpnpConnectionError
 
-    varcfg = recipe["vars"]
-    names = [f"V{i}" for i in range(len(varcfg))]
+    services = norm_services(recipe)
+    nsvc = len(services)
+    names = [[f"V{i}" for i in range(len(vs))] for vs in services]
     lines: List[str] = [f"cfg {BASE_US}"]
-    for ev, rate, default in varcfg:
-        lines.append(f"var {1 if ev else 0} {rate} {'N' if default is None else default}")
+    for k, vs in enumerate(services):
+        for ev, rate, default, _ty in vs:
+            lines.append(f"@{k} var {1 if ev else 0} {rate} {val_tok(default)}")
     lines.append("start")
     tags = set()
     stats = {"post": 0, "deferred": 0}
+    if nsvc > 1:
+        tags.add("two-services")
+    for vs in services:
+        for _ev, _r, _d, ty in vs:
+            tags.add(f"type:{ty}")
 
     loop = C15Loop()
+    loop.set_exception_handler(lambda _loop, _ctx: None)  # a failed fan-out ends a fire-and-forget task
     saved = (srv.datetime, cli.datetime, srv.UpnpEventableStateVariable.trigger_event)
     obs: List[str] = []
-    sids: List[str] = []
-    parked: Dict[int, asyncio.Future] = {}
-    ndel = [0]
+    sids: List[List[str]] = [[] for _ in range(nsvc)]
+    sid_svc: Dict[str, int] = {}
+    parked: List[Dict[int, asyncio.Future]] = [{} for _ in range(nsvc)]
+    ndel = [0] * nsvc
     in_adv = [False]
+    svc_objs: List[Any] = []
 
     def now_us() -> int:
         return round(loop.time() * 1e6)
 
-    def sid_idx(u: str) -> int:
-        if u not in sids:
-            sids.append(u)
-        return sids.index(u)
+    def sid_idx(k: int, u: str) -> int:
+        if u not in sids[k]:
+            sids[k].append(u)
+            sid_svc.setdefault(u, k)
+        return sids[k].index(u)
 
-    class Requester(cli.UpnpRequester):
+    class Requester(cli.UpnpRequester):  # ONE requester for the whole device, as in a real server
         async def async_http_request(self, method, url, headers=None, body=None):
-            k = ndel[0]
-            ndel[0] += 1
-            fut = loop.create_future()
-            parked[k] = fut
             hdr = dict(headers or {})
+            sid = hdr.get("SID", "?")
+            k = sid_svc.get(sid, 0)  # the service that issued this SID (an unissued SID is charged to service 0)
+            n = ndel[k]
+            ndel[k] += 1
+            fut = loop.create_future()
+            parked[k][n] = fut
             ok = method == "NOTIFY" and hdr.get("NT") == "upnp:event" and hdr.get("NTS") == "upnp:propchange"
             seq = hdr.get("SEQ", "x")
-            obs.append(f"o notify {sid_idx(hdr.get('SID', '?'))} {seq if ok else 'bad-' + seq} {now_us()} {tok_str(url)} {_body_token(body, names)}")
+            try:
+                btok = _body_token(body, names[k])
+            except ET.ParseError:
+                btok = "not-well-formed"
+            obs.append(f"@{k} o notify {sid_idx(k, sid)} {seq if ok else 'bad-' + seq} {now_us()} {tok_str(url)} {btok}")
             if seq != "0":
                 stats["post"] += 1
             await fut
@@ -178,104 +217,151 @@ def run_recipe(ctx: Ctx, recipe: Dict[str, Any], cid: str) -> Case:
     orig_trigger = saved[2]
 
     async def trigger_event(self):  # observation point: which variable triggers an event, and when
-        x = names.index(self.name)
-        obs.append(f"o trig {x} {now_us()}")
+        k = next((i for i, so in enumerate(svc_objs) if so is self.service), 0)
+        x = names[k].index(self.name)
+        obs.append(f"@{k} o trig {x} {now_us()}")
         if in_adv[0]:
             stats["deferred"] += 1
         await orig_trigger(self)
 
-    defs: Dict[str, Any] = {}
-    for i, (ev, rate, default) in enumerate(varcfg):
-        d = None if default is None else str(default)
-        if ev:
-            defs[names[i]] = srv.create_event_var("i4", default=d, max_rate=(rate / 1e6 if rate else None))
-        else:
-            defs[names[i]] = srv.create_state_var("i4", default=d)
+    def coerce_default(v, ty):
+        if v is None:
+            return None
+        if ty == "boolean":
+            return "1" if v else "0"
+        return str(v)
 
-    class Svc(srv.UpnpServerService):
-        SERVICE_DEFINITION = ServiceInfo(service_id="urn:x:serviceId:S", service_type="urn:x:service:S:1",
-                                         control_url="/c", event_sub_url="/e", scpd_url="/s", xml=ET.Element("service"))
-        STATE_VARIABLE_DEFINITIONS = defs
+    svc_classes = []
+    for k, vs in enumerate(services):
+        defs: Dict[str, Any] = {}
+        for i, (ev, rate, default, ty) in enumerate(vs):
+            d = coerce_default(default, ty)
+            if ev:
+                defs[names[k][i]] = srv.create_event_var(ty, default=d, max_rate=(rate / 1e6 if rate else None))
+            else:
+                defs[names[k][i]] = srv.create_state_var(ty, default=d)
+        svc_classes.append(type(f"Svc{k}", (srv.UpnpServerService,), {
+            "SERVICE_DEFINITION": ServiceInfo(service_id=f"urn:x:serviceId:S{k}", service_type=f"urn:x:service:S{k}:1",
+                                              control_url=f"/c{k}", event_sub_url=f"/e{k}", scpd_url=f"/s{k}",
+                                              xml=ET.Element("service")),
+            "STATE_VARIABLE_DEFINITIONS": defs}))
 
-    handlers: List[Any] = []  # (task, state dict)
+    class Dev(srv.UpnpServerDevice):
+        DEVICE_DEFINITION = DeviceInfo(device_type="urn:x:device:D:1", friendly_name="d", manufacturer="m", manufacturer_url=None,
+                                       model_description=None, model_name="n", model_number=None, model_url=None, serial_number=None,
+                                       udn="uuid:00000000-0000-0000-0000-00000000c015", upc=None, presentation_url=None,
+                                       url="/device.xml", icons=[], xml=ET.Element("device"))
+        EMBEDDED_DEVICES: List[Any] = []
+        SERVICES = svc_classes
 
-    def resp_line(status: int, headers) -> str:
+    def resp_line(k: int, status: int, headers) -> str:
         sid = headers.get("SID") if headers is not None else None
         to = headers.get("TIMEOUT") if headers is not None else None
         if status != 200:
-            return f"o resp {status} ~ ~"
-        return f"o resp {status} {'~' if sid is None else sid_idx(sid)} {'~' if to is None else to}"
+            return f"@{k} o resp {status} ~ ~"
+        return f"@{k} o resp {status} {'~' if sid is None else sid_idx(k, sid)} {'~' if to is None else to}"
 
-    async def call_handler(fn, svc, method, headers) -> None:
-        st = {"logged": False}
+    async def call_handler(fn, k, method, headers) -> None:
+        st = {"logged": False, "sid": None}
 
         def on_headers(status_line, hdrs):
             if not st["logged"]:
                 st["logged"] = True
-                obs.append(resp_line(int(status_line.split()[1]), hdrs))
+                st["sid"] = hdrs.get("SID")
+                obs.append(resp_line(k, int(status_line.split()[1]), hdrs))
 
-        req = make_mocked_request(method, "/e", headers=headers, writer=_Writer(on_headers), loop=loop)
+        req = make_mocked_request(method, f"/e{k}", headers=headers, writer=_Writer(on_headers), loop=loop)
 
         async def wrapped():
             try:
-                resp = await fn(svc, req)
+                resp = await fn(svc_objs[k], req)
             except Exception as e:  # noqa: BLE001 - reported as an observation
                 if not st["logged"]:
                     st["logged"] = True
-                    obs.append(f"o resp 500 ~ ~")
-                tags.add(f"handler-exc:{type(e).__name__}")
+                    obs.append(f"@{k} o resp 500 ~ ~")
+                    tags.add(f"handler-exc:{type(e).__name__}")
+                elif st["sid"] in sids[k]:
+                    obs.append(f"@{k} o exc {sid_idx(k, st['sid'])}")  # raised after the response: the initial NOTIFY failed
+                    tags.add("initial-delivery-failed")
                 return
             if not st["logged"]:
                 st["logged"] = True
-                obs.append(resp_line(resp.status, resp.headers))
-            elif resp.status == 200 and resp.headers.get("SID") in sids:
-                obs.append(f"o ret {sid_idx(resp.headers['SID'])}")
+                obs.append(resp_line(k, resp.status, resp.headers))
+            elif resp.status == 200 and resp.headers.get("SID") in sids[k]:
+                obs.append(f"@{k} o ret {sid_idx(k, resp.headers['SID'])}")
 
-        handlers.append(asyncio.ensure_future(wrapped()))
+        asyncio.ensure_future(wrapped())
         await _settle(loop)
 
-    def sid_of(ref) -> Optional[str]:
+    def is_known(k, ref) -> bool:
+        return isinstance(ref, int) and not isinstance(ref, bool) and ref < len(sids[k])
+
+    def sid_of(k, ref) -> Optional[str]:
         if ref is None:
             return None
         if ref == "e":
             return ""  # empty SID header: a SID that was never issued
-        if ref == "u" or not isinstance(ref, int) or ref >= len(sids):
+        if ref == "x" and nsvc > 1 and sids[(k + 1) % nsvc]:
+            return sids[(k + 1) % nsvc][0]  # a SID issued by the OTHER service: unknown here
+        if not is_known(k, ref):
             return str(uuid.UUID(int=ctx.rng.getrandbits(128), version=4))
-        return sids[ref]
+        return sids[k][ref]
 
-    def sid_tok(ref) -> str:
+    def sid_tok(k, ref) -> str:
         if ref is None:
             return "~"
-        if ref == "u" or not isinstance(ref, int) or ref >= len(sids):
-            return "u"
-        return str(ref)
+        return str(ref) if is_known(k, ref) else "u"
 
     def opt_tok(s: Optional[str]) -> str:
         return "~" if s is None else tok_str(s)
 
     def flush(sort_ties: bool = False) -> None:
-        # two timers due at the same instant fire in heap order: sort adjacent same-time trigger lines
+        # timers due at the same instant fire in heap order: within a run of consecutive same-time trigger lines
+        # (of any service) the lines of each service are put in variable order, keeping their slots
         i = 0
         while i < len(obs):
             j = i
-            if sort_ties and obs[i].startswith("o trig "):
-                while j < len(obs) and obs[j].startswith("o trig ") and obs[j].split()[3] == obs[i].split()[3]:
+            t0 = obs[i].split()
+            if sort_ties and t0[2] == "trig":
+                while j < len(obs) and obs[j].split()[2] == "trig" and obs[j].split()[4] == t0[4]:
                     j += 1
-                if j - i > 1:
-                    obs[i:j] = sorted(obs[i:j], key=lambda s: int(s.split()[2]))
-                    tags.add("timer-tie")
+                for svc in {ln.split()[0] for ln in obs[i:j]}:
+                    slots = [q for q in range(i, j) if obs[q].split()[0] == svc]
+                    if len(slots) > 1:
+                        ordered = sorted((obs[q] for q in slots), key=lambda s_: int(s_.split()[3]))
+                        for q, ln in zip(slots, ordered):
+                            obs[q] = ln
+                        tags.add("timer-tie")
             i = max(j, i + 1)
         lines.extend(obs)
         obs.clear()
 
+    def typed(k: int, x: int, v):
+        """a value of the variable's type (the recipe may carry any JSON scalar)"""
+        ty = services[k][x][3]
+        if ty == "boolean":
+            return bool(v)
+        if ty == "string":
+            return v if isinstance(v, str) else str(v)
+        if isinstance(v, bool) or not isinstance(v, int):
+            return len(str(v))
+        return v
+
     async def main() -> None:
         srv.datetime = cli.datetime = _make_vdt(loop)
         srv.UpnpEventableStateVariable.trigger_event = trigger_event
-        svc = Svc(Requester())
+        dev = Dev(Requester(), "http://192.0.2.9:8000")
+        svc_objs.extend(dev.services[f"urn:x:service:S{k}:1"] for k in range(nsvc))
         await _settle(loop)
         obs.clear()  # construction-time triggers (default values) precede the history
         for op in recipe["ops"]:
+            k = 0
+            if isinstance(op[0], int):
+                k, op = op[0], op[1:]
+            if k >= nsvc:
+                continue
             name = op[0]
+            at = f"@{k} "
             if name == "sub":
                 _, cb, to = op
                 hdr = {"NT": "upnp:event"}
@@ -283,36 +369,41 @@ def run_recipe(ctx: Ctx, recipe: Dict[str, Any], cid: str) -> Case:
                     hdr["CALLBACK"] = cb
                 if to is not None:
                     hdr["TIMEOUT"] = to
-                lines.append(f"sub {opt_tok(cb)} {opt_tok(to)}")
-                await call_handler(srv.subscribe_handler, svc, "SUBSCRIBE", hdr)
+                lines.append(f"{at}sub {opt_tok(cb)} {opt_tok(to)}")
+                await call_handler(srv.subscribe_handler, k, "SUBSCRIBE", hdr)
             elif name == "renew":
                 _, ref, cb, to = op
-                hdr = {"SID": sid_of(ref)}
+                hdr = {"SID": sid_of(k, ref)}
                 if cb is not None:
                     hdr["CALLBACK"] = cb
                 if to is not None:
                     hdr["TIMEOUT"] = to
-                lines.append(f"renew {sid_tok(ref)} {opt_tok(cb)} {opt_tok(to)}")
-                await call_handler(srv.subscribe_handler, svc, "SUBSCRIBE", hdr)
+                if ref == "x":
+                    tags.add("foreign-sid")
+                lines.append(f"{at}renew {sid_tok(k, ref)} {opt_tok(cb)} {opt_tok(to)}")
+                await call_handler(srv.subscribe_handler, k, "SUBSCRIBE", hdr)
             elif name == "unsub":
                 _, ref = op
-                hdr = {} if ref is None else {"SID": sid_of(ref)}
-                lines.append(f"unsub {sid_tok(ref)}")
-                await call_handler(srv.unsubscribe_handler, svc, "UNSUBSCRIBE", hdr)
+                hdr = {} if ref is None else {"SID": sid_of(k, ref)}
+                if ref == "x":
+                    tags.add("foreign-sid")
+                lines.append(f"{at}unsub {sid_tok(k, ref)}")
+                await call_handler(srv.unsubscribe_handler, k, "UNSUBSCRIBE", hdr)
             elif name == "set":
                 _, x, v = op
-                if x >= len(names):
+                if x >= len(names[k]):
                     continue
-                lines.append(f"set {x} {v}")
-                svc.state_variable(names[x]).value = v
+                v = typed(k, x, v)
+                lines.append(f"{at}set {x} {val_tok(v)}")
+                svc_objs[k].state_variable(names[k][x]).value = v
                 await _settle(loop)
             elif name == "burst":
-                pairs = [(x, v) for x, v in op[1] if x < len(names)]
+                pairs = [(x, typed(k, x, v)) for x, v in op[1] if x < len(names[k])]
                 if not pairs:
                     continue
-                lines.append("burst " + ",".join(f"{x}={v}" for x, v in pairs))
+                lines.append(at + "burst " + ",".join(f"{x}={val_tok(v)}" for x, v in pairs))
                 for x, v in pairs:  # no yield to the loop between the assignments
-                    svc.state_variable(names[x]).value = v
+                    svc_objs[k].state_variable(names[k][x]).value = v
                 await _settle(loop)
             elif name == "adv":
                 _, dt = op
@@ -324,30 +415,33 @@ def run_recipe(ctx: Ctx, recipe: Dict[str, Any], cid: str) -> Case:
                 await fut
                 await _settle(loop)
                 in_adv[0] = False
-            elif name == "done":
-                _, k = op
-                if k not in parked or parked[k].done():
+            elif name in ("done", "fail"):
+                _, n = op
+                if n not in parked[k] or parked[k][n].done():
                     continue
-                lines.append(f"done {k}")
-                parked[k].set_result(None)
+                lines.append(f"{at}{name} {n}")
+                if name == "done":
+                    parked[k][n].set_result(None)
+                else:
+                    parked[k][n].set_exception(ctx.rng.choice([UpnpConnectionError("refused"), asyncio.TimeoutError()]))
                 await _settle(loop)
             elif name == "setkey":
                 _, ref, key = op
-                if not isinstance(ref, int) or ref >= len(sids):
+                if not is_known(k, ref):
                     continue
-                sub = svc.get_subscriber(sids[ref])
+                sub = svc_objs[k].get_subscriber(sids[k][ref])
                 if sub is None:
                     continue
-                lines.append(f"setkey {ref} {key}")
+                lines.append(f"{at}setkey {ref} {key}")
                 sub._event_key = key  # noqa: SLF001 - test hook to reach the wrap of the 32-bit key
             else:
                 raise ValueError(name)
             tags.add(f"op:{name}")
             for ln in obs:
                 t = ln.split()
-                if t[1] == "resp":
-                    tags.add(f"resp:{t[2]}")
-                elif t[1] == "notify" and t[3] == "4294967295":
+                if t[2] == "resp":
+                    tags.add(f"resp:{t[3]}")
+                elif t[2] == "notify" and t[4] == "4294967295":
                     tags.add("key-wrap")
             flush(sort_ties=(name == "adv"))
 
@@ -388,47 +482,74 @@ ADV = [10000, 50000, 100000, 150000, 200000, 250000, 500000, 1000000, 1800000, 2
        60_000000, 300_000000, 1800_000000, 3600_000000, 7200_000000]
 
 
+STRINGS = ["", "a", "x<y&z>", "  sp  ", "é漢", "None", "True", "1", "a'b\"c", "]]>", "line1\nline2", "tab\there", "-7", "cr\rlf\r\nend"]
+TYPES = ["i4", "i4", "boolean", "string"]
+
+
+def rand_value(rng, ty):
+    if ty == "boolean":
+        return rng.choice([True, False])
+    if ty == "string":
+        return rng.choice(STRINGS)
+    return rng.choice([0, 1, 2, 7, -3, rng.randrange(-50, 1000), 2147483647, -2147483648])
+
+
 def rand_vars(rng):
     n = rng.randrange(1, 4)
-    vs = [[True, rng.choice(RATES), rng.choice([None, 0, 7])] for _ in range(n)]
+    vs = []
+    for _ in range(n):
+        ty = rng.choice(TYPES)
+        vs.append([True, rng.choice(RATES), rng.choice([None, rand_value(rng, ty)]), ty])
     if rng.randrange(3) == 0:
-        vs.insert(rng.randrange(0, n + 1), [False, 0, rng.choice([None, 3])])
+        ty = rng.choice(TYPES)
+        vs.insert(rng.randrange(0, n + 1), [False, 0, rng.choice([None, rand_value(rng, ty)]), ty])
     return vs
 
 
 def rand_history(rng, max_ops: int):
-    vs = rand_vars(rng)
+    nsvc = 2 if rng.randrange(4) == 0 else 1
+    svcs = [rand_vars(rng) for _ in range(nsvc)]
     n = rng.randrange(3, max_ops + 1)
     ops: List[Any] = []
-    nsub = 0
-    ndel = 0          # upper bound on deliveries made so far (a `done` of one not made is skipped)
+    nsub = [0] * nsvc
+    ndel = [0] * nsvc  # upper bound on deliveries made so far (a `done` / `fail` of one not made is skipped)
     style = rng.randrange(4)  # 0: short timeouts & long advances, 1: bursts, 2/3: mixed
+
+    def emit(k, op):
+        ops.append(([k] + op) if nsvc > 1 else op)
+
     for _ in range(n):
+        k = rng.randrange(nsvc)
+        vs = svcs[k]
         c = rng.randrange(100)
-        if nsub == 0 and c < 50 or c < 10 and nsub < 4:
+        if nsub[k] == 0 and c < 50 or c < 10 and nsub[k] < 4:
             cb = rng.choice(GOOD_CB) if rng.randrange(8) else rng.choice(ODD_CB)
             to = rng.choice(GOOD_TO) if rng.randrange(6) else rng.choice(ODD_TO)
-            ops.append(["sub", cb, to])
-            nsub += 1
-            ndel += 1
+            emit(k, ["sub", cb, to])
+            nsub[k] += 1
+            ndel[k] += 1
         elif c < 18:
-            ref: Any = rng.randrange(0, max(nsub, 1)) if rng.randrange(5) else rng.choice(["u", "u", "e"])
+            ref: Any = rng.randrange(0, max(nsub[k], 1)) if rng.randrange(5) else rng.choice(["u", "u", "e", "x"])
             to = rng.choice(GOOD_TO) if rng.randrange(4) else rng.choice(ODD_TO)
             cb = None if rng.randrange(6) else rng.choice(GOOD_CB)
-            ops.append(["renew", ref, cb, to])
+            emit(k, ["renew", ref, cb, to])
         elif c < 24:
             r = rng.randrange(8)
-            ref = None if r == 0 else rng.choice(["u", "e"]) if r == 1 else rng.randrange(0, max(nsub, 1))
-            ops.append(["unsub", ref])
+            ref = None if r == 0 else rng.choice(["u", "e", "x"]) if r == 1 else rng.randrange(0, max(nsub[k], 1))
+            emit(k, ["unsub", ref])
         elif c < 56:
             x = rng.randrange(0, len(vs))
-            ops.append(["set", x, rng.choice([0, 1, 2, 7, -3, rng.randrange(-50, 1000)])])
-            ndel += nsub
+            emit(k, ["set", x, rand_value(rng, vs[x][3])])
+            ndel[k] += nsub[k]
         elif c < 62:
-            k = rng.randrange(2, 5)
-            ops.append(["burst", [[rng.randrange(0, len(vs)), rng.choice([0, 1, 2, 7, rng.randrange(-50, 1000)])] for _ in range(k)]])
-            ndel += nsub * k
-        elif c < 82:
+            m = rng.randrange(2, 5)
+            pairs = []
+            for _ in range(m):
+                x = rng.randrange(0, len(vs))
+                pairs.append([x, rand_value(rng, vs[x][3])])
+            emit(k, ["burst", pairs])
+            ndel[k] += nsub[k] * m
+        elif c < 80:
             if style == 0:
                 dt = rng.choice(ADV)
             elif style == 1:
@@ -436,14 +557,15 @@ def rand_history(rng, max_ops: int):
             else:
                 dt = rng.choice(ADV) if rng.randrange(4) else rng.randrange(1, 3_000_000)
             ops.append(["adv", dt])
-            ndel += nsub
+            for q in range(nsvc):
+                ndel[q] += nsub[q]
         elif c < 96:
-            if ndel:
-                ops.append(["done", rng.randrange(0, ndel)])
+            if ndel[k]:
+                emit(k, [rng.choice(["done", "done", "fail"]), rng.randrange(0, ndel[k])])
         else:
-            if nsub:
-                ops.append(["setkey", rng.randrange(0, nsub), rng.choice([4294967294, 4294967295, 4294967293, 5])])
-    return {"vars": vs, "ops": ops}
+            if nsub[k]:
+                emit(k, ["setkey", rng.randrange(0, nsub[k]), rng.choice([4294967294, 4294967295, 4294967293, 5])])
+    return {"services": svcs, "ops": ops}
 
 
 def scenarios() -> List[Dict[str, Any]]:
@@ -474,11 +596,35 @@ def scenarios() -> List[Dict[str, Any]]:
                             ["burst", [[1, 2], [0, 3], [0, 4], [1, 3]]], ["adv", 3000000]]})
     # key wrap
     out.append({"vars": [[True, 0, 0]], "ops": [sub, ["setkey", 0, 4294967294], ["set", 0, 1], ["set", 0, 2], ["set", 0, 3], ["set", 0, 4]]})
+    # typed variables: the wire text of booleans, strings (XML specials, blanks, non-ASCII, empty) and integers
+    typed = [[True, 0, False, "boolean"], [True, 200000, "a<b", "string"], [True, 0, None, "string"], [False, 0, "hidden", "string"],
+             [True, 0, -5, "i4"]]
+    out.append({"services": [typed], "ops": [sub, ["set", 0, True], ["set", 1, "x<y&z>"], ["set", 2, ""], ["set", 3, "still hidden"],
+                                             ["adv", 300000], ["set", 2, "  sp  "], ["set", 1, "\u00e9\u6f22"], ["set", 4, 2147483647],
+                                             ["burst", [[0, False], [2, "None"], [4, -2147483648], [0, True]]], ["adv", 300000]]})
+    # two services on one device: independent subscriber lists, one requester
+    for r0 in RATES:
+        two = [[[True, r0, 0, "i4"], [True, 0, "s", "string"]], [[True, 0, True, "boolean"], [True, r0, None, "i4"]]]
+        out.append({"services": two, "ops": [[0, "sub", "<http://h/a>", "Second-5"], [1, "sub", "<http://h/b>", None], [0, "set", 0, 1],
+                                             [1, "set", 0, False], ["adv", 100000], [0, "set", 0, 2], [1, "set", 1, 4], [1, "renew", "x", None, None],
+                                             [0, "unsub", "x"], [1, "set", 1, 5], ["adv", 3000000], [0, "set", 1, "t"], ["adv", 3000000],
+                                             [0, "set", 0, 3], [1, "set", 0, True], [1, "unsub", 0], [0, "renew", 0, None, None]]})
+    # timers of two services (and two per service) due at the same instant
+    out.append({"services": [[[True, 2000000, None, "boolean"], [True, 200000, None, "i4"]], [[True, 2000000, True, "boolean"], [True, 2000000, 1, "i4"]]],
+                "ops": [[0, "sub", "<http://h/a>", None], [1, "sub", "<http://h/b>", None], [0, "burst", [[0, False], [1, 1], [1, 2]]],
+                        [0, "burst", [[1, -3], [0, True], [1, 2147483647]]], [1, "burst", [[1, 7], [0, False], [1, 824]]], ["adv", 2000000]]})
+    # delivery failures: the initial NOTIFY of one subscriber / one NOTIFY of a fan-out fails; the others go on
+    for r0 in RATES:
+        out.append({"vars": [[True, r0, 0], [True, 0, None]],
+                    "ops": [sub, ["fail", 0], sub2, ["set", 1, 1], ["fail", 2], ["set", 1, 2], ["adv", 2500000], ["set", 0, 5], ["fail", 7],
+                            ["set", 0, 6], ["adv", 2500000], ["done", 1]]})
     return out
 
 
 def with_completions(rec: Dict[str, Any], rng, limit: int) -> List[Dict[str, Any]]:
     """insert `done` operations: every order of the first <= 3 deliveries at every position (bounded by `limit`)"""
+    if "services" in rec and len(rec["services"]) > 1:
+        return []
     ops = rec["ops"]
     outs = []
     # deliveries 0..2 exist once the operations that create them have run; a `done` placed too early is skipped
@@ -490,7 +636,7 @@ def with_completions(rec: Dict[str, Any], rng, limit: int) -> List[Dict[str, Any
             new = list(ops)
             for d, p in sorted(zip(perm, pl), key=lambda z: -z[1]):
                 new.insert(p, ["done", d])
-            outs.append({"vars": rec["vars"], "ops": new})
+            outs.append({**rec, "ops": new})
     return outs
 
 
@@ -502,6 +648,8 @@ CORPUS: List[Dict[str, Any]] = [
     {"vars": [[True, 0, 0]], "ops": [["sub", "<http://h/a>", None], ["set", 0, 5], ["done", 0], ["adv", 1000000]]},
     # F15c: SUBSCRIBE with an empty SID header and a CALLBACK was answered 200 + new SID without registering anybody
     {"vars": [[True, 0, 0]], "ops": [["renew", "e", "<http://h/a>", "Second-5"], ["set", 0, 1], ["unsub", "e"]]},
+    # F15e: a carriage return in a string value reached the subscriber as a line feed
+    {"services": [[[True, 0, None, "string"]]], "ops": [["sub", "<http://h/a>", None], ["set", 0, "a\rb"]]},
     # F15d: two assignments to a moderated variable without yielding to the loop gave two events at the same instant
     {"vars": [[True, 2000000, None]], "ops": [["sub", "<http://h/a>", None], ["burst", [[0, 1], [0, 2], [0, 3]]], ["adv", 3000000]]},
 ]
